@@ -343,7 +343,6 @@ def run(ctx):
     try:
         summ = translate.generate(REPO, gen_dir)
         named_dir = os.path.join(REPO, "rust", "calendars", "named")
-        summ["tables"] = {m: translate.parse_table(os.path.join(named_dir, m + ".rs")) for m in summ["mods"]}
     except (translate.TranslateError, OSError, ValueError) as e:
         # the data cannot even be read: look for a built-in name the real code cannot construct
         ctx.obligations = theorems_of("C07")
